@@ -29,8 +29,8 @@ PY
   # the DAP integration tests time out when the machine is busy: the ones that did not pass are run
   # once more, two at a time
   if [ $RC -ne 0 ] && [ -s /tmp/baseline_off.missing ]; then
-    OUT=$(cargo nextest run --workspace --offline --test-threads 2 -E "$(sed 's/.*/test(\/&$\/)/' /tmp/baseline_off.missing | paste -sd'|')" 2>&1 | tail -n 3)
-    echo "re-run of the tests that did not pass (two at a time): $OUT"
+    OUT=$(cargo nextest run --workspace --offline --no-fail-fast --test-threads 1 -E "$(sed 's/.*/test(\/&$\/)/' /tmp/baseline_off.missing | paste -sd'|')" 2>&1 | tail -n 3)
+    echo "re-run of the tests that did not pass (one at a time): $OUT"
     echo "$OUT" | grep -q " passed" && ! echo "$OUT" | grep -q "failed\|error" && exit 0
     exit 1
   fi
